@@ -316,7 +316,7 @@ pub fn finish(run: &Run, partial_path: &str, replay_check: &dyn Fn(&Value) -> Re
         let r1 = replay_check(&body);
         let r2 = replay_check(&body);
         match (&r1, &r2) {
-            (Err(a), Err(b)) if a == b => {}
+            (Err(a), Err(b)) if a == b && !a.starts_with("MACHINERY") => {}
             _ => {
                 println!(
                     "MACHINERY-ERROR replay of a found violation did not reproduce deterministically: monitor={} case={} first={:?} second={:?}",
